@@ -25,22 +25,34 @@ _MODULE_REGISTRY: dict[str, AS.Value] = {}
 
 def _get_module_from_registry(filepath: str):
     for regpath, module in _MODULE_REGISTRY.items():
-        if os.path.samefile(filepath, regpath):
-            return module
+        try:
+            if os.path.samefile(filepath, regpath):
+                return module
+        except OSError:  # a module file that has disappeared since
+            continue
     return None
 
 
-def _load_from_path(filepath: str) -> AS.Value:
-    module = _get_module_from_registry(filepath)
-    if module is not None:
-        return module
+def _load_from_path(metadata: AS.Metadata, filepath: str) -> AS.Value:
+    try:
+        module = _get_module_from_registry(filepath)
+        if module is not None:
+            return module
 
-    with open(filepath, "r", encoding="utf-8") as reader:
-        program = reader.read()
+        with open(filepath, "r", encoding="utf-8") as reader:
+            program = reader.read()
+    except OSError as err:
+        raise error.UnsuspectedHangeulOSError(
+            metadata, f"운영체제 오류 errno={err.errno}", err.errno or 0
+        ) from None
+    except ValueError:
+        raise error.UnsuspectedHangeulImportError(
+            metadata, f"모듈 파일을 읽을 수 없습니다: {filepath}"
+        ) from None
     exprs = parse.parse(filepath, program)
     if len(exprs) != 1:
         raise error.UnsuspectedHangeulValueError(
-            exprs[0].metadata,
+            exprs[0].metadata if exprs else metadata,
             f"모듈에는 표현식이 하나만 있어야 하는데 {len(exprs)}개가 있습니다.",
         )
     env = AS.Env([], [])
@@ -64,18 +76,23 @@ def _load_from_literal(metadata: AS.Metadata, literals: list[int]) -> AS.Value:
     # Search builtins
     if literals[0] == 5:
         module = _BUITLIN_MODULE_REGISTRY
-        for idx in literals[1:-1]:
-            directory = module[idx]
-            if not isinstance(directory, AS.Dict):
-                raise error.UnsuspectedHangeulNotFoundError(metadata, errmsg)
-            module = directory.mapping
-        return module[literals[-1]]
+        try:
+            for idx in literals[1:-1]:
+                directory = module[idx]
+                if not isinstance(directory, AS.Dict):
+                    raise KeyError(idx)
+                module = directory.mapping
+            return module[literals[-1]]
+        except KeyError:
+            raise error.UnsuspectedHangeulNotFoundError(
+                metadata, errmsg
+            ) from None
 
     # Search files
     filepath = _search_file_from_literal(metadata, literals)
     if filepath is None:
         raise error.UnsuspectedHangeulNotFoundError(metadata, errmsg)
-    module = _load_from_path(filepath)
+    module = _load_from_path(metadata, filepath)
     return module
 
 
@@ -87,6 +104,8 @@ def _search_file_from_literal(
             return None  # TODO: Dict?
         return location
 
+    if not os.path.isdir(location):
+        return None
     results: list[str] = []
     cur, *sub = literals
     for entry in os.listdir(location):
@@ -178,7 +197,7 @@ def build_tbl(
         utils.check_arity(metadata, argv, 1)
         filepath = yield argv[0]
         [filepath] = utils.check_type(metadata, [filepath], AS.String)
-        return _load_from_path(filepath.value)
+        return _load_from_path(metadata, filepath.value)
 
     for name in modules.__all__:
         module = _register_builtin_module(name)
